@@ -296,7 +296,7 @@ def check_enum(g, rec):
 
 def subchecks():
     return [
-        SubCheck("geom2d", check_geom, geom_cases, quick=100, thorough=700, shards_quick=6, shards_thorough=16),
+        SubCheck("geom2d", check_geom, geom_cases, quick=300, thorough=700, shards_quick=8, shards_thorough=16),
         SubCheck("geom1d", check_geom1d, geom1d_cases, quick=300, thorough=3000, shards_quick=1, shards_thorough=2),
         SubCheck("grid", check_enum, None, enum=enum_grid, exhaustive=True, shards_quick=8, shards_thorough=16),
     ]
